@@ -217,6 +217,121 @@ Proof.
   - rewrite (swap_independent_wire l1 l2 a b w I); exact E.
 Qed.
 
+(* ---------- any legal linearisation is reachable by swapping adjacent independent commands ---------- *)
+Inductive sweq : list A -> list A -> Prop :=
+| sweq_refl l : sweq l l
+| sweq_swap l1 a b l2 : independent a b -> sweq (l1 ++ a :: b :: l2) (l1 ++ b :: a :: l2)
+| sweq_trans l m n : sweq l m -> sweq m n -> sweq l n.
+
+Lemma sweq_cons x l m : sweq l m -> sweq (x :: l) (x :: m).
+Proof.
+  induction 1 as [l|l1 a b l2 I|l m n _ IH1 _ IH2].
+  - apply sweq_refl.
+  - apply (sweq_swap (x :: l1) a b l2 I).
+  - eapply sweq_trans; eassumption.
+Qed.
+
+Lemma independent_sym a b : independent a b -> independent b a.
+Proof. intros I w Hb Ha. exact (I w Ha Hb). Qed.
+
+Lemma sweq_sym l m : sweq l m -> sweq m l.
+Proof.
+  induction 1 as [l|l1 a b l2 I|l m n _ IH1 _ IH2].
+  - apply sweq_refl.
+  - apply sweq_swap. apply independent_sym; exact I.
+  - eapply sweq_trans; eassumption.
+Qed.
+
+Lemma bubble l1 h l2 : (forall c, In c l1 -> independent c h) -> sweq (l1 ++ h :: l2) (h :: l1 ++ l2).
+Proof.
+  induction l1 as [|c l1 IH]; intros H; simpl; [apply sweq_refl|].
+  eapply sweq_trans.
+  - apply sweq_cons. apply IH. intros c' Hc'. apply H; right; exact Hc'.
+  - apply (sweq_swap [] c h (l1 ++ l2)). apply H; left; reflexivity.
+Qed.
+
+Lemma wire_nil_iff l w : wire l w = [] <-> forall c, In c l -> on_wire w c = false.
+Proof.
+  unfold wire. induction l as [|x l IH]; simpl; [tauto|].
+  destruct (on_wire w x) eqn:E; split.
+  - discriminate.
+  - intros H. specialize (H x (or_introl eq_refl)). congruence.
+  - intros H c [<-|Hc]; [exact E|]. apply IH; assumption.
+  - intros H. apply IH. intros c Hc. apply H; right; exact Hc.
+Qed.
+
+(* [out] carries the same commands and the same sequence on every wire as [ls] *)
+Definition wire_equiv (ls out : list A) : Prop := Permutation ls out /\ forall w, wire out w = wire ls w.
+
+Theorem wire_equiv_sweq : forall out ls, NoDup ls -> wire_equiv ls out -> sweq ls out.
+Proof.
+  induction out as [|h out' IH]; intros ls ND [P W].
+  - apply Permutation_sym, Permutation_nil in P. subst. apply sweq_refl.
+  - assert (Hin : In h ls) by (eapply Permutation_in; [apply Permutation_sym; exact P|left; reflexivity]).
+    apply in_split in Hin as (l1 & l2 & ->).
+    assert (Hnot1 : ~ In h l1).
+    { apply NoDup_remove_2 in ND. intros Hc. apply ND. apply in_or_app; left; exact Hc. }
+    assert (Hoff : forall w, on_wire w h = true -> wire l1 w = []).
+    { intros w Hw. specialize (W w). rewrite wire_app in W. unfold wire in W at 1 3. simpl in W. rewrite Hw in W.
+      fold (wire out' w) in W. fold (wire l2 w) in W.
+      destruct (wire l1 w) as [|x t] eqn:E; [reflexivity|]. exfalso.
+      simpl in W. injection W as Hx _. subst x.
+      assert (Hh : In h (wire l1 w)) by (rewrite E; left; reflexivity).
+      unfold wire in Hh. apply filter_In in Hh. tauto. }
+    assert (Hind : forall c, In c l1 -> independent c h).
+    { intros c Hc w Hcw Hhw. pose proof (proj1 (wire_nil_iff l1 w) (Hoff w Hhw) c Hc) as F. congruence. }
+    eapply sweq_trans; [apply bubble; exact Hind|]. apply sweq_cons. apply IH.
+    + apply NoDup_remove_1 in ND. exact ND.
+    + split.
+      * apply Permutation_sym. apply (Permutation_cons_app_inv l1 l2 (a := h)). apply Permutation_sym. exact P.
+      * intros w. specialize (W w). rewrite !wire_app in *. unfold wire in W at 1 3. simpl in W.
+        fold (wire out' w) in W. fold (wire l2 w) in W.
+        destruct (on_wire w h) eqn:Hw.
+        -- rewrite (Hoff w Hw) in *. simpl in W. injection W as W. simpl. exact W.
+        -- exact W.
+Qed.
+
+Lemma nodes_all ls : (forall c, In c ls -> has_deps c = true) -> nodes ls = ls.
+Proof.
+  induction ls as [|c l IH]; intros H; [reflexivity|]. unfold nodes in *; simpl. rewrite (H c (or_introl eq_refl)).
+  f_equal. apply IH. intros; apply H; right; assumption.
+Qed.
+
+(* every order a topological sort may return is obtained from the input by swaps of adjacent independent commands *)
+Theorem toposort_sweq ls out :
+  NoDup ls -> (forall c, In c ls -> has_deps c = true) -> toposort ls out -> sweq ls out.
+Proof.
+  intros ND Hall T. apply wire_equiv_sweq; [exact ND|]. split.
+  - destruct T as [P _]. rewrite (nodes_all ls Hall) in P. exact P.
+  - intros w. apply toposort_wire; assumption.
+Qed.
+
+(* hence any semantics in which independent commands commute is invariant under every such re-ordering *)
+Section Semantics.
+Variable M : Type.
+Variables (mul : M -> M -> M) (e : M).
+Hypothesis mul_assoc : forall x y z, mul x (mul y z) = mul (mul x y) z.
+Variable sem : A -> M.
+Hypothesis commute : forall a b, independent a b -> mul (sem b) (sem a) = mul (sem a) (sem b).
+Fixpoint sem_list (l : list A) : M := match l with [] => e | a :: t => mul (sem_list t) (sem a) end.
+
+Lemma sem_list_app_swap l1 a b l2 : independent a b -> sem_list (l1 ++ a :: b :: l2) = sem_list (l1 ++ b :: a :: l2).
+Proof.
+  intros I. induction l1 as [|x l1 IH]; simpl.
+  - rewrite <- !mul_assoc. rewrite (commute a b I). reflexivity.
+  - rewrite IH. reflexivity.
+Qed.
+
+Theorem sweq_sem l m : sweq l m -> sem_list l = sem_list m.
+Proof.
+  induction 1 as [l|l1 a b l2 I|l m n _ IH1 _ IH2]; [reflexivity|apply sem_list_app_swap; exact I|congruence].
+Qed.
+
+Theorem toposort_sem ls out :
+  NoDup ls -> (forall c, In c ls -> has_deps c = true) -> toposort ls out -> sem_list out = sem_list ls.
+Proof. intros ND Hall T. symmetry. apply sweq_sem. apply toposort_sweq; assumption. Qed.
+End Semantics.
+
 (* ---------- group_operations: A ++ B ++ C from two topological sorts ---------- *)
 Variable marked : A -> bool.
 
